@@ -227,6 +227,9 @@ def check_deposition(rep, prog, m):
 
 
 def check_helpers(rep, prog, m):
+    """the D-population helpers by what they hand to _admixture_intermediates (abstract execution; that function is summarised): the
+    density, the admixed frequency sum_a f_a grid_a + (1 - sum f) grid_last with every grid on its own axis, and the grid of the new
+    axis; and which proportion vectors they reject, on concrete vectors just above, exactly at and below total 1"""
     rel = m.rel
     for D in (2, 3, 4, 5):
         fn = prog.func(PM, HELPER[D])
@@ -235,50 +238,96 @@ def check_helpers(rep, prog, m):
         fs = params[1:D]
         grids = params[D:2 * D]
         newg = params[2 * D]
-        ad = [n for n in own_nodes(fn) if isinstance(n, ast.Assign) and ast.unparse(n.targets[0]).startswith('ad_')]
-        if len(ad) != 1:
-            raise AnalysisError('%s: admixed-frequency assignment not found' % fn.name)
-        # broadcasting: grid a must carry ':' at array axis a-1
-        okb = True
-        terms = {}
+        five = tuple(mx.Sym(x) for x in ('LO', 'UP', 'FL', 'FU', 'NORM'))
 
-        def index_hook(tr, e):
-            return Rat.atom('G(%s)' % ast.unparse(e.value))
-        for sub in ast.walk(ad[0].value):
-            if isinstance(sub, ast.Subscript) and isinstance(sub.slice, ast.Tuple):
-                g = ast.unparse(sub.value)
-                pos = [i for i, c in enumerate(sub.slice.elts) if isinstance(c, ast.Slice)]
-                if g not in grids or pos != [grids.index(g)] or len(sub.slice.elts) != D:
-                    okb = False
+        def run_with(fvals):
+            calls = []
+
+            def fh(nm, args, kwargs):
+                if nm == '_admixture_intermediates':
+                    calls.append((list(args), dict(kwargs)))
+                    return five
+                return NotImplemented
+            it = _interp(prog, m, func_hook=fh)
+            a_ = {p_: mx.Sym(p_) for p_ in params}
+            for f_, v_ in zip(fs, fvals):
+                a_[f_] = v_
+            return it.run(fn, a_), calls
+        oka = okc = False
+        det = ''
         try:
-            got = Translator({}, index_hook=index_hook).tr(ad[0].value)
+            paths, calls = run_with([mx.Sym(f_) for f_ in fs])
+            rets = [p_ for p_ in paths if p_[0][0] == 'return']
+            if len(rets) != 1 or len(calls) != 1 or len(calls[0][0]) != 3 or calls[0][1]:
+                raise mx.Undecidable('%d returning paths, %d calls of _admixture_intermediates' % (len(rets), len(calls)))
+            a0, ad, a2 = calls[0][0]
+
+            def leaf(x, D=D, grids=grids):
+                if isinstance(x, mx.Sym) and not x.struct and re.fullmatch(r'[A-Za-z_]\w*', x.text):
+                    return Rat.atom(x.text)
+                if isinstance(x, mx.Sym) and x.struct and x.struct[0] == 'index' and mx.show(x.struct[1]) in grids:
+                    b = mx.show(x.struct[1])
+                    comps = x.struct[2] if isinstance(x.struct[2], tuple) else (x.struct[2],)
+                    pos = [i_ for i_, c_ in enumerate(comps) if mx.is_full_slice(c_)]
+                    if pos == [grids.index(b)] and len(comps) == D and all(mx.is_newaxis(c_) for i_, c_ in enumerate(comps) if i_ != pos[0]):
+                        return Rat.atom('G(%s)' % b)
+                    return Rat.atom('BAD(%s)' % b)
+                return None
+            got = mx.to_rat(ad, leaf)
             ref = Rat.const(0)
             rest = Rat.const(1)
-            for f_, g in zip(fs, grids[:-1]):
-                ref = ref + Rat.atom(f_) * Rat.atom('G(%s)' % g)
+            for f_, g_ in zip(fs, grids[:-1]):
+                ref = ref + Rat.atom(f_) * Rat.atom('G(%s)' % g_)
                 rest = rest - Rat.atom(f_)
             ref = ref + rest * Rat.atom('G(%s)' % grids[-1])
             oka = got.equals(ref)
-        except AlgebraError:
-            oka = False
-        rep.ob('R-ALG', '%s mixture' % fn.name, oka and okb, ast.unparse(ad[0])[:140], rel, ad[0].lineno, what='admixed frequency = sum f_a*grid_a + (1 - sum f)*grid_last, each grid on its own axis')
-        call = [c for c in own_nodes(fn) if isinstance(c, ast.Call) and dotted(c.func) == '_admixture_intermediates']
-        okc = len(call) == 1 and [ast.unparse(a) for a in call[0].args] == [params[0], ast.unparse(ad[0].targets[0]), newg]
-        rep.ob('R-IDX', '%s delegation' % fn.name, okc, ast.unparse(call[0]) if call else '', rel, call[0].lineno if call else fn.lineno, what='delegates with (density, admixed frequency, new-axis grid)')
-        guards = [n for n in fn.body if isinstance(n, ast.If)]
-        if D == 2:
-            rep.ob('R-EXH', '%s guard' % fn.name, not guards, '%d guards' % len(guards), rel, fn.lineno, what='two-population helper accepts every f (range is the caller\'s responsibility)')
-        else:
-            okg = len(guards) == 1 and any(isinstance(x, ast.Raise) for x in guards[0].body)
-            if okg:
-                t = guards[0].test
-                try:
-                    okg = isinstance(t, ast.Compare) and isinstance(t.ops[0], ast.Gt) and ast.unparse(t.comparators[0]) == '1' and \
-                        Translator().tr(t.left).equals(parse_expr(' + '.join(fs)))
-                except AlgebraError:
-                    okg = False
-            rep.ob('R-EXH', '%s guard' % fn.name, okg, 'raises iff %s' % (ast.unparse(guards[0].test) if guards else '(no guard)'), rel, guards[0].lineno if guards else fn.lineno,
-                   what='rejects exactly proportion vectors summing above 1 (every vector of the simplex is accepted)')
+            det = 'admixed frequency %s' % (got.canon()[:120])
+            okc = mx.show(a0) == params[0] and mx.show(a2) == newg and [mx.show(x_) for x_ in rets[0][0][1]] == [mx.show(x_) for x_ in five] if isinstance(rets[0][0][1], tuple) else False
+        except (mx.Undecidable, AlgebraError) as e:
+            det = '%s is not recognised: %s' % (fn.name, e)
+        rep.ob('R-ALG', '%s mixture' % fn.name, oka, det, rel, fn.lineno, what='admixed frequency = sum f_a*grid_a + (1 - sum f)*grid_last, each grid on its own axis')
+        rep.ob('R-IDX', '%s delegation' % fn.name, bool(okc), 'delegates with (density, admixed frequency, new-axis grid) and returns the five intermediates' if okc else det, rel, fn.lineno,
+               what='delegates with (density, admixed frequency, new-axis grid)')
+        # the guard, on concrete proportion vectors: the reference is "rejected exactly when the proportions, added left to right in
+        # floating point, exceed 1" (no guard at all for the two-population helper).  The vectors: a coarse grid, negative entries, and
+        # vectors where rounding makes 1 - f1 - f2 - .. negative although f1 + f2 + .. does not exceed 1 (or the reverse) - a guard on the
+        # remainder is not the same test.
+        okg, detg = True, ''
+        try:
+            import itertools as _it
+            nf = len(fs)
+            tenths = [k_ / 10.0 for k_ in range(0, 11)]
+
+            def lr_sum(v):
+                t_ = v[0]
+                for x_ in v[1:]:
+                    t_ = t_ + x_
+                return t_
+
+            def remainder(v):
+                t_ = 1
+                for x_ in v:
+                    t_ = t_ - x_
+                return t_
+            critical = [list(v) for v in _it.product(tenths, repeat=nf) if (lr_sum(v) > 1) != (remainder(v) < 0)][:4] if nf > 1 else []
+            coarse = [list(v) for v in _it.product((0.0, 0.3, 0.6, 1.0), repeat=nf)]
+            negative = [[-0.1] + [0.5 / max(nf - 1, 1)] * (nf - 1), [0.4] * (nf - 1) + [-0.2]] if nf > 1 else [[-0.1]]
+            n_cases = 0
+            for vals in coarse + critical + negative + [[1.5] + [0.0] * (nf - 1)]:
+                must_raise = nf > 1 and lr_sum(vals) > 1
+                paths, _c = run_with(vals)
+                n_cases += 1
+                raised = [p_ for p_ in paths if p_[0][0] == 'raise']
+                returned = [p_ for p_ in paths if p_[0][0] == 'return']
+                if must_raise and (returned or not raised):
+                    okg, detg = False, 'proportions %s (total above 1) are accepted' % vals
+                if not must_raise and raised:
+                    okg, detg = False, 'proportions %s (total %.17g, not above 1) are rejected' % (vals, lr_sum(vals))
+        except mx.Undecidable as e:
+            okg, detg = False, '%s is not recognised: %s' % (fn.name, e)
+        rep.ob('R-EXH', '%s guard' % fn.name, okg, detg or ('every proportion is accepted (range is the caller\'s responsibility)' if D == 2 else 'rejected exactly when the left-to-right sum exceeds 1 (%d vectors incl. rounding-critical and negative ones)' % n_cases),
+               rel, fn.lineno, what='two-population helper accepts every f (range is the caller\'s responsibility)' if D == 2 else
+               'rejects exactly proportion vectors summing above 1 (every vector of the simplex is accepted)')
 
 
 def check_constructors(rep, prog, m):
